@@ -6,7 +6,7 @@ From Coq Require Strings.String.
 Import Coq.Strings.String.StringSyntax.
 Delimit Scope string_scope with string.
 From PB Require Import Base.PBytes Known.FieldMaskModel Known.DurationModel Known.TimestampModel
-  Known.WktJsonModel Known.DurJsonP Known.FmJsonP Known.CivilModel Known.CivilP Known.TsJsonModel Known.TsJsonP.
+  Known.WktJsonModel Known.DurJsonP Known.FmJsonP Known.CivilModel Known.CivilP Known.TsJsonModel Known.TsJsonP Known.TsGrammarP.
 Import ListNotations.
 Open Scope Z_scope.
 
@@ -99,13 +99,7 @@ Theorem C23_timestamp_strict_grammar_refuted :
     parse_ts false s2 = None /\ unmarshal_timestamp s2 = UOk 946688400 0 /\           (* "2000-01-01T1:00:00Z" *)
     parse_ts false s3 = None /\ unmarshal_timestamp s3 = UOk 946598400 0 /\           (* "2000-01-01T00:00:00+24:00" *)
     parse_ts false s4 = None /\ unmarshal_timestamp s4 = UOk 946681200 0.             (* "2000-01-01T00:00:00+00:60" *)
-Proof.
-  exists [x32;x30;x30;x30;x2d;x30;x31;x2d;x30;x31;x54;x30;x30;x3a;x30;x30;x3a;x30;x30;x2c;x31;x32;x33;x34;x35;x36;x37;x38;x39;x30;x31;x32;x33;x5a],
-         [x32;x30;x30;x30;x2d;x30;x31;x2d;x30;x31;x54;x31;x3a;x30;x30;x3a;x30;x30;x5a],
-         [x32;x30;x30;x30;x2d;x30;x31;x2d;x30;x31;x54;x30;x30;x3a;x30;x30;x3a;x30;x30;x2b;x32;x34;x3a;x30;x30],
-         [x32;x30;x30;x30;x2d;x30;x31;x2d;x30;x31;x54;x30;x30;x3a;x30;x30;x3a;x30;x30;x2b;x30;x30;x3a;x36;x30].
-  vm_compute. repeat split; reflexivity.
-Qed.
+Proof. exact timestamp_strict_grammar_refuted. Qed.
 Print Assumptions C23_timestamp_strict_grammar_refuted.
 
 (* whatever Unmarshal accepts beyond the strict parser comes from the lenient one *)
@@ -113,18 +107,28 @@ Theorem C23_timestamp_accepts_except_F3b :
   forall s secs nanos, unmarshal_timestamp s = UOk secs nanos ->
   (exists ns, parse_ts false s = Some (secs, ns)) \/
   (parse_ts false s = None /\ exists ns, parse_ts true s = Some (secs, ns)).
-Proof.
-  intros s secs nanos. unfold unmarshal_timestamp, parse_go.
-  destruct (parse_ts false s) as [[a b]|] eqn:E1.
-  - destruct ((a <? min_timestamp_seconds) || (max_timestamp_seconds <? a)); [discriminate|].
-    match goal with |- context[if ?c then _ else _] => destruct c end; [discriminate|].
-    intros H; inversion H; subst. left. eauto.
-  - destruct (parse_ts true s) as [[a b]|] eqn:E2; [|discriminate].
-    destruct ((a <? min_timestamp_seconds) || (max_timestamp_seconds <? a)); [discriminate|].
-    match goal with |- context[if ?c then _ else _] => destruct c end; [discriminate|].
-    intros H; inversion H; subst. right. eauto.
-Qed.
+Proof. exact timestamp_accepts_except_f3b. Qed.
 Print Assumptions C23_timestamp_accepts_except_F3b.
+
+(* The grammar of the parser model, for both the strict (len = false: RFC 3339 with upper-case
+   T/Z, two-digit fields, '.' fraction of any length, offset 00..23:00..59, seconds 00..59,
+   year 0000..9999) and the layout-driven parser (len = true: additionally one-digit hour,
+   ',' separator, offset hour 24, offset minute 60):
+     parse_ts len s = Some v  <->  s has that shape (ts_syntax) and v is its value *)
+Theorem C23_timestamp_grammar :
+  forall len s secs ns,
+  parse_ts len s = Some (secs, ns) <->
+  exists y m d hh mi ss fr off, ts_syntax len s y m d hh mi ss fr off /\ (secs, ns) = ts_value y m d hh mi ss fr off.
+Proof. exact timestamp_grammar. Qed.
+Print Assumptions C23_timestamp_grammar.
+
+(* whatever the lenient parser accepts is either accepted with the same value by the strict
+   one or has the lenient shape without having the strict shape (the F3b class) *)
+Theorem C23_timestamp_lenient_only_F3b :
+  forall s secs ns,
+  parse_ts true s = Some (secs, ns) -> parse_ts false s = Some (secs, ns) \/ f3b_deviation s.
+Proof. exact timestamp_lenient_only_f3b. Qed.
+Print Assumptions C23_timestamp_lenient_only_F3b.
 
 (* ---------------- FieldMask ---------------- *)
 
